@@ -150,9 +150,9 @@ func runDyn(ctx *Ctx, sc *Scn) (evs []trace.Ev, note string) {
 			ctx.Cov.dynDraw(sc, op, len(hs), sel, kids, int(d.Cursor()), int(before), idle)
 			evs = append(evs, trace.Ev{"ev": "dyn-draw", "op": "draw", "n": len(hs), "hs": append([]int{}, hs...), "gap": sc.Gap,
 				"W": op.W, "H": op.H, "idx": int(d.Cursor()), "kids": kids, "sel": sel, "pan": pan})
-			// a draw that itself moves the selection (the selected item is gone) is a selection
-			// change too: the draw that follows it has to show the newly selected item
-			sel = d.Cursor() != before
+			// (a draw that itself moves the selection because the selected item is gone is not
+			// "a selection change followed by a draw": only the index is judged there)
+			sel = false
 			idle = true
 		} else {
 			idle = false
